@@ -461,3 +461,56 @@ Definition empty_state : pstate := mkP [] [] [].
 (* Schema::parse_str on the parsed JSON value *)
 Definition parse_schema (fuel : nat) (j : json) : res schema :=
   do (s, _) <- parse fuel empty_state j None; Ok s.
+
+(* ---- Schema::parse_list (schema/mod.rs:555-580, parser.rs:70-102) ----
+   The pending inputs live in a HashMap drained with keys().next(): the processing order is the map's
+   iteration order, which the model takes as a parameter (hash_order, a list of names; at each step the
+   first of them still pending). *)
+Fixpoint collect_inputs (l : list json) (acc : list (name * json)) (order : list name)
+  : res (list (name * json) * list name) :=
+  match l with
+  | [] => Ok (acc, rev order)
+  | JObj m :: r =>
+    do n <- name_parse m None;
+    match inputs_get n acc with
+    | Some _ => Err                                   (* NameCollision *)
+    | None => collect_inputs r ((n, JObj m) :: acc) (n :: order)
+    end
+  | _ :: _ => Err
+  end.
+
+Fixpoint first_pending (hash_order : list name) (inputs : list (name * json)) : option (name * json) :=
+  match hash_order with
+  | [] => match inputs with [] => None | x :: _ => Some x end
+  | n :: r => match inputs_get n inputs with Some v => Some (n, v) | None => first_pending r inputs end
+  end.
+
+Fixpoint drain (steps fuel : nat) (hash_order : list name) (st : pstate) : res pstate :=
+  match steps with
+  | O => match p_inputs st with [] => Ok st | _ => OutOfFuel end
+  | S k =>
+    match first_pending hash_order (p_inputs st) with
+    | None => Ok st
+    | Some (n, v) =>
+      let st0 := mkP (inputs_remove n (p_inputs st)) (p_resolving st) (p_parsed st) in
+      do (s, st1) <- parse fuel st0 v None;
+      do key <- schema_type_name n v;
+      drain k fuel hash_order (mkP (p_inputs st1) (p_resolving st1) (names_insert key s (p_parsed st1)))
+    end
+  end.
+
+(* the results in input order; an input registered under another name (its "type" is an object with a
+   name of its own) is not found: an error since fix F51 *)
+Fixpoint take_parsed (order : list name) (parsed : names) : res (list schema) :=
+  match order with
+  | [] => Ok []
+  | n :: r => match names_get n parsed with
+              | Some s => do more <- take_parsed r (names_remove n parsed); Ok (s :: more)
+              | None => Err end
+  end.
+
+Definition parse_list (fuel : nat) (hash_order : list N) (l : list json) : res (list schema) :=
+  do (inputs, order) <- collect_inputs l [] [];
+  let horder := fold_right (fun i acc => match nth_error order (N.to_nat i) with Some n => n :: acc | None => acc end) [] hash_order in
+  do st <- drain (S (List.length l)) fuel horder (mkP inputs [] []);
+  take_parsed order (p_parsed st).
